@@ -357,8 +357,8 @@ pub fn run(report: &Report) {
         "Python front end: arrays returned by the coders stay what they were while the coder is used on (40 steps, across reallocations of its buffer); objects built from arrays do not follow later writes to those arrays",
         &["returned array", "still refers"], &[]);
     super::pyfront::sweep(report, "callbacks", 0,
-        "Python front end: CustomModel callbacks returning ints, bools, numpy scalars or Fractions are refused or read as the same number; callbacks that are not cdfs never bring the interpreter down",
-        &["another numeric type", "not a cdf"], &[]);
+        "Python front end: CustomModel callbacks returning ints, bools, numpy scalars or Fractions are refused or read as the same number; callbacks that are not cdfs never bring the interpreter down; a callback that re-enters the busy coder (9 inner calls x 4 invocation indices x 3 outer operations) is refused or harmless",
+        &["another numeric type", "not a cdf", "re-entrant"], &[]);
 }
 
 pub fn replay(case: &serde_json::Value) -> Result<String, String> {
